@@ -803,6 +803,10 @@ class Exec:
         if name in mod.imports:
             return self._import_value(mod.imports[name])
         if name in mod.constants:
+            ov = self.registry.models.const_overrides.get(mod.relpath + "::" + name)
+            if ov is not None:
+                self.used_models.add("opaque-constant:" + mod.relpath + "::" + name)
+                return ov
             sub = Frame(fr.finfo, {}, mod)
             self.frames.append(sub)
             try:
@@ -827,6 +831,10 @@ class Exec:
             if name in m.imports:
                 return self._import_value(m.imports[name])
             if name in m.constants:
+                ov = self.registry.models.const_overrides.get(m.relpath + "::" + name)
+                if ov is not None:
+                    self.used_models.add("opaque-constant:" + m.relpath + "::" + name)
+                    return ov
                 sub = Frame(None, {}, m)
                 self.frames.append(sub)
                 try:
@@ -1205,6 +1213,14 @@ class Exec:
             return hook[0]
         if _is_generator(finfo.node):
             raise Unsupported("generator function %s @%s" % (finfo.qualname, line))
+        for d in finfo.node.decorator_list:
+            dn = d.id if isinstance(d, ast.Name) else d.attr if isinstance(d, ast.Attribute) else \
+                (d.func.id if isinstance(d, ast.Call) and isinstance(d.func, ast.Name) else
+                 getattr(getattr(d, "func", None), "attr", "?"))
+            if dn not in ("staticmethod", "classmethod", "property", "deprecated"):
+                # a decorator may replace the body (runtime dispatch, caching, ...): never inline such a function
+                raise Unsupported("call of decorated function %s (@%s) without a contract @%s"
+                                  % (finfo.qualname, dn, line))
         env = self.bind_args(finfo, args, dict(kwargs), bound)
         self.used_contracts.add("inlined:" + finfo.qualname)
         return self.run_function(finfo, env)
